@@ -51,6 +51,8 @@ pub enum Op {
     Quiesce,
     ReadMiss { n: usize },
     Descr,
+    /// n gets of one key
+    ReadKey { k: i64, n: usize },
 }
 
 #[derive(Clone, Debug, Serialize, Deserialize)]
@@ -552,6 +554,15 @@ impl Session {
                 });
                 self.emit("DescrRet", json!({"ok": ok}));
             }
+            Op::ReadKey { k, n } => {
+                let db = self.db.as_ref().unwrap();
+                let u = Arc::clone(&self.u);
+                self.wd.call("readmiss", || {
+                    for _ in 0..*n {
+                        let _ = get_id(db, &u, *k, None);
+                    }
+                });
+            }
             Op::ReadMiss { n } => {
                 // repeated reads (also of absent keys) provoke seek-triggered compactions
                 let db = self.db.as_ref().unwrap();
@@ -562,6 +573,29 @@ impl Session {
                         let _ = get_id(db, &u, k, None);
                     }
                 });
+                // ... aimed reads: one key inside the recorded range of ONE table file, often
+                // enough to use up that file's seek allowance when it does not hold the key (or
+                // holds an older version only): seek-triggered compaction of exactly that file -
+                // a trivial move if nothing overlaps it one level down
+                if let Some(d) = db.verif_try_state(Duration::from_secs(5)) {
+                    let mut cands: Vec<(i64, i64)> = vec![];
+                    for lvl in d.levels.iter().take(6) {
+                        for f in lvl.iter() {
+                            cands.push((u.key_id(&f.smallest.0), u.key_id(&f.largest.0)));
+                        }
+                    }
+                    if !cands.is_empty() {
+                        let (lo, hi) = cands[*n % cands.len()];
+                        if lo >= 1 && hi >= lo {
+                            let k = lo + ((*n / 7) as i64) % (hi - lo + 1);
+                            self.wd.call("readmiss", || {
+                                for _ in 0..130 {
+                                    let _ = get_id(db, &u, k, None);
+                                }
+                            });
+                        }
+                    }
+                }
                 // ... and freshly positioned iterators charge the files they read from through
                 // read sampling (every new iterator samples the first entries it parses): n
                 // iterators positioned on ONE key (the key depends on n)
@@ -620,6 +654,67 @@ fn gen_value(rng: &mut StdRng, g: &mut GenState, cfg: &HistCfg, memtable: usize)
                 comp: bytes[1] == 0x5A,
             }
         }
+    }
+}
+
+/// Profile "trivial": every run starts with the recipe for an automatic TRIVIAL MOVE - keys
+/// k2 < k4 flushed first (nothing overlaps: the table is pushed down to level 2), then k1 < k3
+/// written and the database reopened without log reuse (recovery writes them as a level-0 table
+/// over an empty level 1), then enough reads of k2 - which the level-0 table
+/// spans but does not hold - to use up its seek allowance: the level-0 table is compacted alone
+/// into the empty level 1, i.e. moved.  Then a reopen (the manifest has to replay the move),
+/// another round one level further down, and the usual random operations.
+const TRIVIAL_PROLOGUE: usize = 16;
+
+fn trivial_prologue(i: usize, rng: &mut StdRng, g: &mut GenState, cfg: &HistCfg, cur: &OptSet) -> Op {
+    let n = cfg.nkeys as i64;
+    // four keys spread over the universe (at least 4 keys: nkeys >= 4 is forced by the caller)
+    let k1 = 1;
+    let k2 = (n / 3).max(2);
+    let k3 = (2 * n / 3).max(k2 + 1);
+    let k4 = n.max(k3 + 1).min(n);
+    let mut put = |k: i64, g: &mut GenState| {
+        g.next_vid += 1;
+        Op::Put {
+            k,
+            v: ValSpec {
+                vid: g.next_vid - 1,
+                len: 24,
+                comp: true,
+            },
+        }
+    };
+    match i {
+        0 => put(k2, g),
+        1 => put(k4.max(k3), g),
+        2 => Op::Flush,
+        3 => Op::Quiesce,
+        4 => put(k1, g),
+        5 => put(k3, g),
+        // (a memtable flushed by a running database is pushed down as far as nothing overlaps;
+        // the table that RECOVERY writes from a log always goes to level 0)
+        6 => {
+            let mut o = cur.clone();
+            o.reuse = false;
+            Op::Reopen { opts: o }
+        }
+        7 => Op::Quiesce,
+        8 => Op::ReadKey { k: k2, n: 130 },
+        9 => Op::Quiesce,
+        10 => {
+            let mut o = cur.clone();
+            o.reuse = rng.gen_bool(0.5);
+            Op::Reopen { opts: o }
+        }
+        11 => Op::Quiesce,
+        12 => Op::ReadKey { k: k2, n: 130 },
+        13 => Op::Quiesce,
+        14 => {
+            let mut o = cur.clone();
+            o.reuse = rng.gen_bool(0.5);
+            Op::Reopen { opts: o }
+        }
+        _ => Op::Quiesce,
     }
 }
 
@@ -906,6 +1001,8 @@ pub fn run_hist(
                                 comp: true,
                             },
                         }
+                    } else if cfg.profile == "trivial" && i < TRIVIAL_PROLOGUE {
+                        trivial_prologue(i, &mut rng, &mut g, cfg, &sess.opts)
                     } else {
                         gen_op(&mut rng, &mut g, cfg, &sess.opts)
                     }
